@@ -293,7 +293,7 @@ class Gen(object):
                 except UnicodeDecodeError:
                     pass
             if r.random() < 0.3:
-                o["drive"] = "until_done"
+                o["drive"] = r.choice(["until_done", "until_done", "exhaust"])
             return o
         if k == "create_we" and self.many_ids:
             self.many_ids = False
@@ -364,7 +364,7 @@ class Gen(object):
             a, nm = r.choice(self.rules)
             o = {"op": k, "anchor": enc(a), "rule": nm}
             if r.random() < 0.3:
-                o["drive"] = "until_done"
+                o["drive"] = r.choice(["until_done", "until_done", "exhaust"])
             return o
         if k == "add_rule":
             a = self.anchor()
@@ -377,7 +377,7 @@ class Gen(object):
                 if r.random() < 0.5:
                     o["hold_sweep"] = True
             elif r.random() < 0.3:
-                o["drive"] = "until_done"
+                o["drive"] = r.choice(["until_done", "until_done", "exhaust"])
             return o
         if k == "abandon_query":
             from .ops import QUERY_ITERS
